@@ -19,7 +19,7 @@ def run(ctx):
     sites = {}
     for f in F.fns.values():
         if f.name.startswith(P):
-            ms = {v.rsplit("::", 1)[1] for v in f.vars if re.search(r"::RoundingMode::[A-Za-z]+$", v)}
+            ms = {v.rsplit("::", 1)[-1] for v in f.vars if re.search(r"::RoundingMode::[A-Za-z]+$", v)}
             if ms:
                 sites.setdefault(f.root, set()).update(ms)
     ctx.floor("rounding-sites", len(sites), 10, "functions constructing a RoundingMode in blueprints::pool")
@@ -53,7 +53,7 @@ def run(ctx):
                 src = [{x.rsplit("::", 1)[-1] for x in origin_names(body, arg)} for arg in args]
                 if not any("total_supply" in s_ for s_ in src):
                     continue
-                op = a.what.rsplit("::", 1)[1]
+                op = a.what.rsplit("::", 1)[-1]
                 if op == "gt" and "total_supply" in src[0]:
                     e.append((bb, fal)); bl.append(bb)          # supply > 0 is false
                 elif op in ("eq", "is_zero"):
@@ -100,7 +100,7 @@ def run(ctx):
                     if s["k"] == "=" and s["rv"]["k"] == "agg" and s["rv"].get("var") == "Rounded" and s["rv"].get("adt", "").endswith("WithdrawStrategy"):
                         n += 1
                         names = origin_names(b, s["rv"]["ops"][0])
-                        modes = {x.rsplit("::", 1)[1] for x in names if "RoundingMode::" in x}
+                        modes = {x.rsplit("::", 1)[-1] for x in names if "RoundingMode::" in x}
                         ok = bool(modes) and modes <= DOWN and all("RoundingMode::" in x for x in names)
                         ctx.ob(f"withdraw-strategy|{'.'.join(f.root.split('::')[-4:])}", ok, f"WithdrawStrategy::Rounded({sorted(names)})", b.loc(i))
     ctx.floor("withdraw-strategy-sites", n, 3)
